@@ -5,7 +5,7 @@ use std::path::Path;
 use mahf::{
     components::{
         mutation::{
-            common::InsertionMutation, de::DEMutation, functional as mf, BitFlipMutation, InversionMutation, NormalMutation, PartialRandomBitstring, PartialRandomSpread, ScrambleMutation, SwapMutation, TranslocationMutation,
+            common::InsertionMutation, de::DEMutation, functional as mf, BitFlipMutation, MutationRate, InversionMutation, NormalMutation, PartialRandomBitstring, PartialRandomSpread, ScrambleMutation, SwapMutation, TranslocationMutation,
             UniformMutation,
         },
         recombination::{
@@ -51,7 +51,7 @@ impl Check for HelperCheck {
         "C13/helpers".into()
     }
     fn classes(&self) -> &'static [&'static str] {
-        &["circular swap with >=3 indices", "non-empty slice moved to a different index", "slice ends at len", "multi-point with >=2 cuts", "cycle crossover with >=2 cycles", "unordered indices"]
+        &["circular swap with >=3 indices", "non-empty slice moved to a different index", "slice ends at len", "multi-point with >=2 cuts", "cycle crossover with >=2 cycles", "unordered indices", "arithmetic crossover of parents of different length"]
     }
     fn oracle(&self, c: &HelperCase) -> Outcome {
         let mut cl = 0;
@@ -146,8 +146,15 @@ fn helper_oracle(c: &HelperCase, cl: &mut u64) -> Result<(), Failure> {
                 Ok(x) => x,
                 Err(p) => fail!("C13 arithmetic_crossover panics", "{a:?} x {b:?}: {p}"),
             };
-            ensure_that!(c1.len() == a.len() && c2.len() == a.len(), "C13 arithmetic_crossover length", "children lengths {} / {}", c1.len(), c2.len());
-            for i in 0..a.len() {
+            // every child has the length of its own parent (the function only asks for enough alphas, not for parents of
+            // one length): the common prefix is interpolated, a longer parent's tail is its child's tail
+            ensure_that!(c1.len() == a.len() && c2.len() == b.len(), "C13 arithmetic_crossover length", "{a:?} x {b:?}: children lengths {} / {}, parents' lengths {} / {}", c1.len(), c2.len(), a.len(), b.len());
+            if a.len() != b.len() {
+                *cl |= 64;
+            }
+            let common = a.len().min(b.len());
+            ensure_that!(c1[common..].iter().zip(&a[common..]).all(|(x, y)| x.to_bits() == y.to_bits()) && c2[common..].iter().zip(&b[common..]).all(|(x, y)| x.to_bits() == y.to_bits()), "C13 arithmetic_crossover changes genes beyond the shorter parent", "{a:?} x {b:?}: children {c1:?} / {c2:?}");
+            for i in 0..common {
                 let (lo, hi) = (a[i].min(b[i]), a[i].max(b[i]));
                 let tol = 4.0 * f64::EPSILON * (lo.abs().max(hi.abs()).max(1e-300));
                 for c in [c1[i], c2[i]] {
@@ -318,6 +325,10 @@ fn helper_cases(thorough: bool) -> Vec<HelperCase> {
         for b in vals {
             for al in alphas {
                 out.push(HelperCase::Arithmetic { p1: vec![Fb::of(a), Fb::of(b)], p2: vec![Fb::of(b), Fb::of(-a)], alphas: vec![Fb::of(al), Fb::of(1.0 - al)] });
+                if al == 0.25 {
+                    out.push(HelperCase::Arithmetic { p1: vec![Fb::of(a), Fb::of(b), Fb::of(2.0)], p2: vec![Fb::of(b)], alphas: vec![Fb::of(al), Fb::of(1.0 - al), Fb::of(al)] });
+                    out.push(HelperCase::Arithmetic { p1: vec![Fb::of(a)], p2: vec![Fb::of(b), Fb::of(-a)], alphas: vec![Fb::of(al), Fb::of(1.0 - al)] });
+                }
             }
         }
     }
@@ -343,7 +354,7 @@ fn helper_strategy() -> impl Strategy<Value = HelperCase> {
         }),
         (2usize..10).prop_flat_map(|n| (proptest::collection::vec(0u8..3, n), proptest::collection::vec(0u8..3, n), proptest::sample::subsequence((0..n).collect::<Vec<_>>(), 1..n).prop_shuffle())).prop_map(|(p1, p2, indices)| HelperCase::MultiPoint { p1, p2, indices }),
         (1usize..10).prop_flat_map(|n| (proptest::collection::vec(0u8..3, n), proptest::collection::vec(0u8..3, n), proptest::collection::vec(any::<bool>(), n))).prop_map(|(p1, p2, mask)| HelperCase::Uniform { p1, p2, mask }),
-        (1usize..8).prop_flat_map(|n| (proptest::collection::vec(-1e6f64..1e6, n), proptest::collection::vec(-1e6f64..1e6, n), proptest::collection::vec(0f64..=1.0, n))).prop_map(|(a, b, c)| HelperCase::Arithmetic { p1: a.into_iter().map(Fb::of).collect(), p2: b.into_iter().map(Fb::of).collect(), alphas: c.into_iter().map(Fb::of).collect() }),
+        (1usize..8, 0usize..3).prop_flat_map(|(n, shorter)| (proptest::collection::vec(-1e6f64..1e6, n), proptest::collection::vec(-1e6f64..1e6, n.saturating_sub(shorter).max(1)), proptest::collection::vec(0f64..=1.0, n), any::<bool>())).prop_map(|(a, b, c, swap)| if swap { (b, a, c) } else { (a, b, c) }).prop_map(|(a, b, c)| HelperCase::Arithmetic { p1: a.into_iter().map(Fb::of).collect(), p2: b.into_iter().map(Fb::of).collect(), alphas: c.into_iter().map(Fb::of).collect() }),
         (1usize..10).prop_flat_map(|n| (Just((0..n).collect::<Vec<_>>()).prop_shuffle(), Just((0..n).collect::<Vec<_>>()).prop_shuffle())).prop_map(|(p1, p2)| HelperCase::Cycle { p1, p2 }),
     ]
 }
@@ -412,6 +423,10 @@ pub enum CompCase {
         /// own parameters
         #[serde(default)]
         same_id: bool,
+        /// the instance is constructed with the OPPOSITE rate and initialised; then its `MutationRate` state - the
+        /// documented handle for adapting the rate during a run - is set to the own rate before the execution
+        #[serde(default)]
+        adapted: bool,
     },
 }
 
@@ -423,7 +438,7 @@ impl Check for CompCheck {
         "C13/components".into()
     }
     fn classes(&self) -> &'static [&'static str] {
-        &["population>=2 and dim>=3", "rate 0", "rate 1", "crossover", "odd population", "permutation operator", "DE operator", "empty population", "non-default identifier", "non-default identifier next to a default-identified instance with another rate", "DE crossover on populations of different sizes", "a second instance with the same identifier and other parameters was initialised before"]
+        &["population>=2 and dim>=3", "rate 0", "rate 1", "crossover", "odd population", "permutation operator", "DE operator", "empty population", "non-default identifier", "non-default identifier next to a default-identified instance with another rate", "DE crossover on populations of different sizes", "a second instance with the same identifier and other parameters was initialised before", "rate state adapted after initialisation (constructed with the opposite rate)"]
     }
     fn oracle(&self, c: &CompCase) -> Outcome {
         let mut cl = 0;
@@ -874,8 +889,12 @@ fn comp_oracle_inner(c: &CompCase, cl: &mut u64) -> Result<(), Failure> {
                 _ => ensure_that!(got.len() == *size, format!("C13 {name} changes the population size"), "{at}"),
             }
         }
-        CompCase::Identified { which, own_full, sibling, n, dim, seed, same_id } => {
+        CompCase::Identified { which, own_full, sibling, n, dim, seed, same_id, adapted } => {
             let same_id = *same_id;
+            let adapted = *adapted;
+            if adapted {
+                *cl |= 4096;
+            }
             if same_id && sibling.is_some() {
                 *cl |= 2048;
             }
@@ -886,6 +905,8 @@ fn comp_oracle_inner(c: &CompCase, cl: &mut u64) -> Result<(), Failure> {
                 *cl |= 1;
             }
             let own = if *own_full { 1.0 } else { 0.0 };
+            // the rate the instance is constructed with
+            let ctor = if adapted { 1.0 - own } else { own };
             *cl |= if *own_full { 4 } else { 2 };
             if let Some(sr) = sibling {
                 if sr.f() != own {
@@ -906,15 +927,25 @@ fn comp_oracle_inner(c: &CompCase, cl: &mut u64) -> Result<(), Failure> {
                     let pop: Vec<Vec<f64>> = (0..n).map(|_| (0..dim).map(|_| (next() % 2000) as f64 / 100.0 - 10.0).collect()).collect();
                     let inds: Vec<_> = pop.iter().map(|s| Individual::<RealP>::new_unevaluated(s.clone())).collect();
                     let (name, comp, sib): (&str, Box<dyn Component<RealP>>, Option<Box<dyn Component<RealP>>>) = match which {
-                        0 => ("NormalMutation", NormalMutation::<A>::new_with_id(1.0, own), sibling.map(|r| if same_id { NormalMutation::<A>::new_with_id(2.5, r.f()) } else { NormalMutation::new(1.0, r.f()) })),
-                        1 => ("UniformMutation", UniformMutation::<A>::new_with_id(1.0, own), sibling.map(|r| if same_id { UniformMutation::<A>::new_with_id(2.5, r.f()) } else { UniformMutation::new(1.0, r.f()) })),
-                        _ => ("PartialRandomSpread", PartialRandomSpread::<A>::new_with_id(own), sibling.map(|r| if same_id { PartialRandomSpread::<A>::new_with_id(r.f()) } else { PartialRandomSpread::new(r.f()) })),
+                        0 => ("NormalMutation", NormalMutation::<A>::new_with_id(1.0, ctor), sibling.map(|r| if same_id { NormalMutation::<A>::new_with_id(2.5, r.f()) } else { NormalMutation::new(1.0, r.f()) })),
+                        1 => ("UniformMutation", UniformMutation::<A>::new_with_id(1.0, ctor), sibling.map(|r| if same_id { UniformMutation::<A>::new_with_id(2.5, r.f()) } else { UniformMutation::new(1.0, r.f()) })),
+                        _ => ("PartialRandomSpread", PartialRandomSpread::<A>::new_with_id(ctor), sibling.map(|r| if same_id { PartialRandomSpread::<A>::new_with_id(r.f()) } else { PartialRandomSpread::new(r.f()) })),
                     };
                     let mut st = state_with(vec![inds], *seed);
                     if let Some(sib) = &sib {
                         run_comp_init(sib.as_ref(), &problem, &mut st, name, &at)?;
                     }
-                    run_comp(comp.as_ref(), &problem, &mut st, name, &at)?;
+                    if adapted {
+                        run_comp_init(comp.as_ref(), &problem, &mut st, name, &at)?;
+                        match which {
+                            0 => st.set_value::<MutationRate<NormalMutation<A>>>(own),
+                            1 => st.set_value::<MutationRate<UniformMutation<A>>>(own),
+                            _ => st.set_value::<MutationRate<PartialRandomSpread<A>>>(own),
+                        };
+                        run_comp_exec(comp.as_ref(), &problem, &mut st, name, &at)?;
+                    } else {
+                        run_comp(comp.as_ref(), &problem, &mut st, name, &at)?;
+                    }
                     let got = &stack_solutions(&st)[0];
                     ensure_that!(got.len() == n && got.iter().all(|s| s.len() == dim), format!("C13 {name} changes size or dimension"), "{at}: got {got:?}");
                     for (a, b) in pop.iter().zip(got) {
@@ -933,15 +964,25 @@ fn comp_oracle_inner(c: &CompCase, cl: &mut u64) -> Result<(), Failure> {
                     let pop: Vec<Vec<bool>> = (0..n).map(|_| (0..dim).map(|_| next() % 2 == 0).collect()).collect();
                     let inds: Vec<_> = pop.iter().map(|s| Individual::<BitsP>::new_unevaluated(s.clone())).collect();
                     let (name, comp, sib): (&str, Box<dyn Component<BitsP>>, Option<Box<dyn Component<BitsP>>>) = if which == 3 {
-                        ("BitFlipMutation", BitFlipMutation::<A>::new_with_id(own), sibling.map(|r| if same_id { BitFlipMutation::<A>::new_with_id(r.f()) } else { BitFlipMutation::new(r.f()) }))
+                        ("BitFlipMutation", BitFlipMutation::<A>::new_with_id(ctor), sibling.map(|r| if same_id { BitFlipMutation::<A>::new_with_id(r.f()) } else { BitFlipMutation::new(r.f()) }))
                     } else {
-                        ("PartialRandomBitstring", PartialRandomBitstring::<A>::new_with_id(1.0, own), sibling.map(|r| if same_id { PartialRandomBitstring::<A>::new_with_id(0.0, r.f()) } else { PartialRandomBitstring::new(1.0, r.f()) }))
+                        ("PartialRandomBitstring", PartialRandomBitstring::<A>::new_with_id(1.0, ctor), sibling.map(|r| if same_id { PartialRandomBitstring::<A>::new_with_id(0.0, r.f()) } else { PartialRandomBitstring::new(1.0, r.f()) }))
                     };
                     let mut st = state_with(vec![inds], *seed);
                     if let Some(sib) = &sib {
                         run_comp_init(sib.as_ref(), &problem, &mut st, name, &at)?;
                     }
-                    run_comp(comp.as_ref(), &problem, &mut st, name, &at)?;
+                    if adapted {
+                        run_comp_init(comp.as_ref(), &problem, &mut st, name, &at)?;
+                        if which == 3 {
+                            st.set_value::<MutationRate<BitFlipMutation<A>>>(own);
+                        } else {
+                            st.set_value::<MutationRate<PartialRandomBitstring<A>>>(own);
+                        }
+                        run_comp_exec(comp.as_ref(), &problem, &mut st, name, &at)?;
+                    } else {
+                        run_comp(comp.as_ref(), &problem, &mut st, name, &at)?;
+                    }
                     let got = &stack_solutions(&st)[0];
                     ensure_that!(got.len() == n && got.iter().all(|s| s.len() == dim), format!("C13 {name} changes size or dimension"), "{at}");
                     if !*own_full {
@@ -964,13 +1005,19 @@ fn comp_oracle_inner(c: &CompCase, cl: &mut u64) -> Result<(), Failure> {
                         p
                     }).collect();
                     let inds: Vec<_> = pop.iter().map(|s| Individual::<TspP>::new_unevaluated(s.clone())).collect();
-                    let comp: Box<dyn Component<TspP>> = ScrambleMutation::<A>::new_with_id(own);
+                    let comp: Box<dyn Component<TspP>> = ScrambleMutation::<A>::new_with_id(ctor);
                     let sib: Option<Box<dyn Component<TspP>>> = sibling.map(|r| if same_id { ScrambleMutation::<A>::new_with_id(r.f()) } else { ScrambleMutation::new(r.f()) });
                     let mut st = state_with(vec![inds], *seed);
                     if let Some(sib) = &sib {
                         run_comp_init(sib.as_ref(), &problem, &mut st, "ScrambleMutation", &at)?;
                     }
-                    run_comp(comp.as_ref(), &problem, &mut st, "ScrambleMutation", &at)?;
+                    if adapted {
+                        run_comp_init(comp.as_ref(), &problem, &mut st, "ScrambleMutation", &at)?;
+                        st.set_value::<MutationRate<ScrambleMutation<A>>>(own);
+                        run_comp_exec(comp.as_ref(), &problem, &mut st, "ScrambleMutation", &at)?;
+                    } else {
+                        run_comp(comp.as_ref(), &problem, &mut st, "ScrambleMutation", &at)?;
+                    }
                     let got = &stack_solutions(&st)[0];
                     ensure_that!(got.len() == n && got.iter().all(|g| g.len() == len && is_permutation(g)), "C13 ScrambleMutation result is not a permutation", "{at}: {got:?}");
                     if !*own_full {
@@ -981,6 +1028,14 @@ fn comp_oracle_inner(c: &CompCase, cl: &mut u64) -> Result<(), Failure> {
         }
     }
     Ok(())
+}
+
+fn run_comp_exec<P: mahf::Problem>(comp: &dyn Component<P>, problem: &P, state: &mut State<P>, name: &str, at: &str) -> Result<(), Failure> {
+    match catch(|| comp.execute(problem, state)) {
+        Ok(Ok(())) => Ok(()),
+        Ok(Err(e)) => soft_fail(Failure::new(format!("C13 {name} errs on a valid population"), format!("{at}: execution after the rate state was adapted: {e:#}"))).and(Err(Failure::new("skip", ""))),
+        Err(p) => soft_fail(Failure::new(format!("C13 {name} panics"), format!("{at}: execution after the rate state was adapted: {p}"))).and(Err(Failure::new("skip", ""))),
+    }
 }
 
 fn run_comp_init<P: mahf::Problem>(comp: &dyn Component<P>, problem: &P, state: &mut State<P>, name: &str, at: &str) -> Result<(), Failure> {
@@ -1033,7 +1088,7 @@ fn comp_strategy() -> impl Strategy<Value = CompCase> {
         4 => (real_op, real_pop(), any::<u64>()).prop_map(|(op, pop, seed)| CompCase::Real { op, pop, seed }),
         2 => (bit_op, (1usize..9).prop_flat_map(|dim| proptest::collection::vec(proptest::collection::vec(any::<bool>(), dim), 0..10)), any::<u64>()).prop_map(|(op, pop, seed)| CompCase::Bits { op, pop, seed }),
         4 => (perm_op, 2usize..9, 0usize..8, any::<u64>()).prop_map(|(op, n, size, seed)| CompCase::Perm { op, n, size, seed }),
-        1 => (0u8..6, any::<bool>(), proptest::option::of(rate()), 1usize..6, 1usize..7, any::<u64>(), any::<bool>()).prop_map(|(which, own_full, sibling, n, dim, seed, same_id)| CompCase::Identified { which, own_full, sibling, n, dim, seed, same_id }),
+        1 => (0u8..6, any::<bool>(), proptest::option::of(rate()), 1usize..6, 1usize..7, any::<u64>(), any::<bool>()).prop_map(|(which, own_full, sibling, n, dim, seed, same_id)| CompCase::Identified { which, own_full, sibling, n, dim, seed, same_id, adapted: seed % 3 == 0 }),
     ]
 }
 
@@ -1054,10 +1109,10 @@ pub fn run_all(ctx: &mut Ctx, replay: Option<&Path>) {
     ctx.random(&h, helper_strategy(), ctx.tier.pick(200_000, 1_000_000));
     ctx.exhaustive(
         &k,
-        "6 identifier-generic mutations instantiated with identifier A x own rate {0, 1} x {alone, next to a default-identified instance with rate 0, 1} x 2 population shapes",
+        "6 identifier-generic mutations instantiated with identifier A x own rate {0, 1} x {alone, next to a default-identified instance with rate 0, 1} x 2 population shapes (+ same identifier, + rate adapted through the state after initialisation)",
         (0u8..6).flat_map(|which| {
             [false, true].into_iter().flat_map(move |own_full| {
-                [None, Some(0.0), Some(1.0)].into_iter().flat_map(move |sib| [(1usize, 1usize, false), (3, 4, false), (3, 4, true)].into_iter().map(move |(n, dim, same_id)| CompCase::Identified { which, own_full, sibling: sib.map(Fb::of), n, dim, seed: 11 + which as u64, same_id }))
+                [None, Some(0.0), Some(1.0)].into_iter().flat_map(move |sib| [(1usize, 1usize, false, false), (3, 4, false, false), (3, 4, true, false), (3, 4, false, true)].into_iter().map(move |(n, dim, same_id, adapted)| CompCase::Identified { which, own_full, sibling: sib.map(Fb::of), n, dim, seed: 11 + which as u64, same_id, adapted }))
             })
         }),
     );
